@@ -101,7 +101,11 @@ fn main() {
             }
             std::thread::sleep(std::time::Duration::from_secs(5));
         }
-        eprintln!("stand-in: scripted failure of `{kind}`");
+        match plan.get("fail_stderr").and_then(Value::as_str) {
+            // what the docker CLI prints (exit 125) when the host port it picked is taken: the container exists by then, in state "Created"
+            Some("port-allocated") => eprintln!("docker: Error response from daemon: driver failed programming external connectivity on endpoint vp (0123abcd): Bind for 0.0.0.0:49153 failed: port is already allocated."),
+            _ => eprintln!("stand-in: scripted failure of `{kind}`"),
+        }
         std::process::exit(plan.get("exit").and_then(Value::as_i64).unwrap_or(1) as i32);
     }
     match kind.as_str() {
